@@ -2,8 +2,8 @@ package main
 
 import (
 	"fmt"
-	"os"
 	"go/types"
+	"os"
 	"sort"
 	"strings"
 
@@ -11,20 +11,20 @@ import (
 )
 
 type FuncResult struct {
-	Key        string
-	Obls       []*Obligation
-	Error      string // engine could not handle the function
-	Houdini    []string
-	Trusted    map[string]int
-	Uncontr    map[string]int
-	Inlined    map[string]int
-	Spawns     []string
-	Warnings   []string
-	Paths      int
-	CallsiteHits map[string]int
-	SafetySkipped int
+	Key                 string
+	Obls                []*Obligation
+	Error               string // engine could not handle the function
+	Houdini             []string
+	Trusted             map[string]int
+	Uncontr             map[string]int
+	Inlined             map[string]int
+	Spawns              []string
+	Warnings            []string
+	Paths               int
+	CallsiteHits        map[string]int
+	SafetySkipped       int
 	CallsiteAssumptions map[string]int
-	TS *TermStore // the term store the obligations live in
+	TS                  *TermStore // the term store the obligations live in
 }
 
 // runTop executes the function once (probe or final) and returns the executor.
@@ -41,6 +41,7 @@ func (V *Verifier) runTop(fn *ssa.Function, key string, fs *FuncSpec, cands map[
 	X.TopFn, X.TopKey, X.TopSpec = fn, key, fs
 	X.probe = probe
 	X.LockMode = lockMode
+	X.LockOnly = V.LockOnly
 	if cands != nil {
 		X.cands = cands
 	}
@@ -76,6 +77,12 @@ func (V *Verifier) runTop(fn *ssa.Function, key string, fs *FuncSpec, cands map[
 		v := X.freshVal(st, fv.Type(), "fv."+fv.Name())
 		st.assume(ts, ts.Not(ts.Eq(v.T, ts.IntLit(0))))
 		fr.Free[fv] = v
+		if pt, ok := fv.Type().Underlying().(*types.Pointer); ok && structOf(pt.Elem()) == nil && immutableCapture(fv) {
+			if _, isArr := pt.Elem().Underlying().(*types.Array); !isArr {
+				n, srt := E.CellHeap(pt.Elem())
+				st.Stable = append(st.Stable, stableRec{Heap: n, Sort: srt, Ref: v.T})
+			}
+		}
 	}
 	// receivers are non-nil when the contract does not say otherwise: methods are verified for non-nil receivers
 	if fn.Signature.Recv() != nil && len(fn.Params) > 0 {
@@ -114,7 +121,8 @@ func (V *Verifier) runTop(fn *ssa.Function, key string, fs *FuncSpec, cands map[
 		}
 		for _, h := range fs.Holds {
 			sc := X.clauseCtx(fr, st, fr.ParamEntry, "holds")
-			sc.Fr = nil
+			// captured variables of a closure verified on its own are visible by name; locals are not
+			sc.Fr = &Frame{Fn: fr.Fn, Free: fr.Free, Cells: map[*ssa.Alloc]*Cell{}, Regs: map[ssa.Value]*Val{}}
 			lk := sc.lockRef(h)
 			ls := ArraySort(SInt, SInt)
 			X.setHeap(st, lk.heap, ls, ts.Store(X.heap(st, lk.heap, ls), lk.idx, ts.IntLit(1)))
@@ -204,6 +212,8 @@ type Verifier struct {
 	Replay map[string]*ReplaySpec
 	unroll int
 	bvEnv  *Env
+	// lock sweep: only lockset obligations are generated (everything else is assumed at the point it would be checked)
+	LockOnly bool
 }
 
 // UnrolledCounterexamples re-runs a function with loops unrolled (no invariants): obligations that come back
